@@ -9,7 +9,7 @@ use std::{
 
 use crate::{
   prelude::*,
-  rc::{MutArc, MutRc},
+  rc::{MutArc, MutRc, RcDeref},
 };
 
 #[derive(Clone)]
@@ -141,7 +141,9 @@ macro_rules! impl_observer {
 
       #[inline]
       fn is_finished(&self) -> bool {
-        false
+        // the notifier has done its job once it has fired, and it is not
+        // needed any more when the main stream has ended
+        !self.0.is_skipping() || self.0.observer.rc_deref().is_none()
       }
     }
   };
